@@ -1069,7 +1069,9 @@ func (c *SpecCtx) applySpecFunc(sf *SpecFunc, e *ECall) SVal {
 				}
 				g.header = append(g.header, fmt.Sprintf("(declare-fun %s (%s) %s)", def.name, strings.Join(sorts, " "), c.sortOfTy(rty)))
 				appl := "(" + def.name + " " + strings.Join(names, " ") + ")"
-				g.header = append(g.header, fmt.Sprintf("(assert (forall (%s) (! (= %s %s) :pattern (%s))))", strings.Join(formals, " "), appl, v.T.S, appl))
+				// kept apart from the header: a query includes the axiom only when it
+				// mentions the function (and never in the light proof attempt)
+				g.sfAxioms = append(g.sfAxioms, sfAxiom{name: def.name, text: fmt.Sprintf("(assert (forall (%s) (! (= %s %s) :pattern (%s))))", strings.Join(formals, " "), appl, v.T.S, appl)})
 				g.quantified = true
 			} else {
 				g.header = append(g.header, fmt.Sprintf("(define-fun %s (%s) %s %s)", def.name, strings.Join(formals, " "), c.sortOfTy(rty), v.T.S))
